@@ -147,6 +147,11 @@ Theorem C07_real_classifier_agrees_for_default_infty : forall ro, rgap_ok (d2q d
 Proof. exact rgap_ok_default. Qed.
 Print Assumptions C07_real_classifier_agrees_for_default_infty.
 
+(* ... so with INFTY = 1e100 every call of the real interface is benign *)
+Theorem C07_real_interface_benign_for_default_infty : forall rnd s ro, pinf s = dinf -> benign rnd s (OR ro).
+Proof. exact benign_real_default. Qed.
+Print Assumptions C07_real_interface_benign_for_default_infty.
+
 (* ---------------------------------------------------------------------------------------------------------
  refuted for the conversions as the linked libraries perform them (rnd_impl: nearest-even for the conversion
  operator, truncation for mpq_get_d; compared with the libraries on every run of the check) *)
